@@ -19,18 +19,22 @@ CFG = {
                   "of component `agent` (real agent under testing/synctest vs model, op by op).",
     "level_note": "Trusted: Lean kernel (axioms propext/Classical.choice/Quot.sound), the gotolean translator and its atom table, "
                   "the harness. The theorems are about the model; model = code is established by differential execution "
-                  "(bounded by the generator), except for the three translated decision functions (all inputs). pion/stun "
+                  "(bounded by the generator), except for the translated decision functions (all inputs: shouldSwitchSelectedPair, "
+                  "needsToCheckPriorityOnNominated, shouldAcceptNomination, controllingSelector.isNominatable; ContactCandidates of both "
+                  "selectors and controllingSelector.HandleBindingRequest as whole functions in effect mode). pion/stun "
                   "decoding and HMAC are modelled as perfect (integrity verifies iff the key is the expected password; "
                   "`authenticated`/`transaction-matched` ghost flags are set exactly after those checks). Not modelled: the "
                   "application binding-request handler (the property is stated for agents without one), TCP candidates, mDNS, "
-                  "automatic renomination. The deferred-switch condition of controlledSelector.HandleSuccessResponse is covered "
-                  "by the correspondence only (not a translated site).",
+                  "automatic renomination. The deferred-switch condition of controlledSelector.HandleSuccessResponse is translated as "
+                  "a whole function in effect mode; its tie theorems are obligations of C20 (C20_code_controlled_success_response).",
     "components": [{"component": "agent", "args": "focus=C03", "session_start": "new", "trivial_regex": "^(bad-op.*|ended.*)$", "shrink_s": 40}],
     "rule": "quick/thorough: the `agent` component generator (random sessions of two-role, full/lite agents with early, repeated "
             "and out-of-order USE-CANDIDATE, equal and adjacent pair priorities, role conflicts, prflx discovery, restarts); "
             "every op's canonical digest (selected pair, pair states, datagrams emitted) is diffed against the model.",
     "translated": ["controlledSelector.shouldSwitchSelectedPair", "Agent.needsToCheckPriorityOnNominated",
-                   "controlledSelector.shouldAcceptNomination"],
+                   "controlledSelector.shouldAcceptNomination", "controllingSelector.isNominatable",
+                   "controllingSelector.ContactCandidates", "controlledSelector.ContactCandidates",
+                   "controllingSelector.HandleBindingRequest"],
     "trusted_base": ["HMAC / pion/stun message decoding modelled as perfect",
                      "agent model tied to code by differential correspondence (component agent), not by proof"],
     "assumptions": ["no application binding-request handler (as the property states)", "UDP candidates only; mDNS disabled",
